@@ -98,7 +98,7 @@ func runNative(files []harnessFile, pkgRel string, names []string, replayPath st
 	defer cancel()
 	cmd := exec.CommandContext(ctx, "go", "test", "-v", "-vet=off", "-count=1", "-timeout", "120s", "-overlay", ov, "-run", "^TestVerifReplay$", "./"+pkgRel)
 	cmd.Dir = repoDir
-	cmd.Env = append(os.Environ(), "GOFLAGS=-mod=mod", "GOPROXY=off", "GOSUMDB=off", "GOTOOLCHAIN=local", "VERIF_REPLAY="+replayPath)
+	cmd.Env = append(os.Environ(), "GOFLAGS=-mod=mod", "GOPROXY=off", "GOSUMDB=off", "GOTOOLCHAIN=local", "TZ=UTC", "VERIF_REPLAY="+replayPath)
 	var out bytes.Buffer
 	cmd.Stdout = &out
 	cmd.Stderr = &out
